@@ -20,7 +20,7 @@ pub const SPEC: FamilySpec = FamilySpec {
     profile: Profile::Bytes,
     fams: &[Fam::Open, Fam::Alive, Fam::Panic],
     stall_is_violation: false,
-    runs_quick: 16_000,
+    runs_quick: 48_000,
     runs_thorough: 3_200_000,
     rule: "one case = one execution of (a) the general workload with 1-8 concurrent opens from both sides, target hosts of 0..300 arbitrary bytes and edge ports; (b) scripted-RNG runs that hand the endpoint id 0 and ids of live flows; \
 (c) collision runs: both endpoints draw the same ids at the same moment, max_flow_id_retries 1..5; (d) a raw peer that resets the first k in 0..=R+1 Connects, or sends Connect with id 0 / an id in use. \
